@@ -34,6 +34,8 @@ def run(prog, chk):
     chk.decided += ["the caller's outline options reach the outline compiler as given: compileOutlines only overrides the reviewed entries of the forwarded option table "
                     "(sparse-master tables, optimizeCFF / glyphDataFormat / roundCoordinates / dropImpliedOnCurves of interpolatable masters) and no compiler assigns an outline option to itself (R01.10)"]
     chk.decided += ["the decomposition helper draws every component it removes, whatever its transformation: what a master contributes does not depend on that master's own transform values (R01.13 = R15.1b)"]
+    chk.decided += ["the default filters of a pre-processor are the list initDefaultFilters returned: none of them is dropped because a custom filter 'already does it' (a custom decompose filter restricted "
+                    "to some glyphs does not stand for the unrestricted default one) (R01.14 = R02.20)"]
     chk.not_decided += ["that drawn coordinates equal the source (fontTools pens)", "composition of nested transforms", "semantics of roundTolerance inside T2CharStringPen"]
     chk.guard(r011, prog, chk)
     chk.guard(r012, prog, chk, "R01.2")
@@ -50,6 +52,7 @@ def run(prog, chk):
     chk.guard(r0112, prog, chk, "R01.12")
     from .c15 import r151b
     chk.guard(r151b, prog, chk, "R01.13")
+    chk.guard(check_default_filters_kept, prog, chk, "R01.14")
 
 
 # ----------------------------------------------------------------------------- R01.1
@@ -509,7 +512,36 @@ def r0112(prog, chk, rule="R01.12"):
     chk.minimum(rule, 1)
 
 
+# ----------------------------------------------------------------------------- R01.14 (= R02.20)
+def check_default_filters_kept(prog, chk, rule):
+    ix = prog.ix
+    n = 0
+    for fi in ix.functions.values():
+        if fi.module.name != "ufo2ft.preProcessor" or isinstance(fi.node, ast.Lambda):
+            continue
+        for s_, t, v in attr_stores(fi, "defaultFilters"):
+            if T(t.value) != "self":
+                continue
+            n += 1
+            ok = isinstance(v, ast.Call) and T(v.func) == "self.initDefaultFilters"
+            if not ok and isinstance(v, ast.ListComp) and fi.cls is not None and "Interpolatable" in fi.cls.name:
+                # the interpolatable pre-processors build one list per master
+                ok = isinstance(v.elt, ast.Call) and T(v.elt.func).endswith("initDefaultFilters") and not any(g.ifs for g in v.generators)
+            chk.ob(rule, f"{fi.short}|{A.keytext(fi.node, s_)}|the default filters are what initDefaultFilters returned", ok, where(fi, s_), detail=T(v, 80),
+                   message=f"{fi.short}: self.defaultFilters is not simply the result of initDefaultFilters (`{T(v, 60)}`): a default step (decomposition, overlap removal, curve conversion) can "
+                           f"be left out for a font that has a look-alike custom filter, and glyphs reach the outline compiler unprocessed")
+        for c in A.body_nodes(fi.node):
+            if isinstance(c, ast.Call) and isinstance(c.func, ast.Attribute) and c.func.attr in ("remove", "pop", "clear", "__delitem__") and T(c.func.value).endswith("defaultFilters"):
+                n += 1
+                chk.ob(rule, f"{fi.short}|{A.keytext(fi.node, c)}", False, where(fi, c), message=f"{fi.short} removes entries from the default filter list (`{T(c, 50)}`)")
+    need(n >= 2, f"{rule}: defaultFilters stores found: {n}")
+    chk.minimum(rule, 2)
+
+
 MUTANTS = [
+    M("default filters dropped when a custom pre-filter of the same class and options exists (seeded C01m)", "ufo2ft/preProcessor.py", "BasePreProcessor.__init__",
+      "self.defaultFilters = self.initDefaultFilters(**kwargs)",
+      "self.defaultFilters = [f for f in self.initDefaultFilters(**kwargs) if not any((type(p) is type(f) and p.options == f.options for p in self.preFilters))]", rule="R01.14"),
     M("components with a singular transformation are dropped instead of drawn (seeded C09k)", "ufo2ft/util.py", "decomposeCompositeGlyph",
       "pen = DecomposingFilterPointPen(glyph.getPointPen(), glyphSet, reverseFlipped=reverseFlipped, include=include, decomposeNested=decomposeNested)",
       "pen = DecomposingFilterPointPen(glyph.getPointPen(), glyphSet, reverseFlipped=reverseFlipped, include=include, decomposeNested=decomposeNested)\nfor component in list(glyph.components):\n    if component.transformation[0] * component.transformation[3] == component.transformation[1] * component.transformation[2]:\n        glyph.removeComponent(component)", rule="R01.13"),
